@@ -3,7 +3,7 @@
     closed forms of Model/RfaSpec.v, which the strategies are proved to compute in C05_link_*
     (Proofs/RfaLinkFixed.v, Proofs/RfaLinkAdaptive.v).
     The five shape functions are the GENERATED Gen/Funfit.v: an edit of funfit.py re-runs these proofs. *)
-From TW Require Import Model.RfaSpec Proofs.RfaGeometryProofs Proofs.RfaLinkFixed Proofs.RfaLinkAdaptive.
+From TW Require Import Model.RfaSpec Proofs.RfaGeometryProofs.
 Open Scope Qc_scope.
 
 (** ---- the five elementary shape functions equal their documented closed forms for every exponent ---- *)
